@@ -369,7 +369,8 @@ Definition recv (v : variant) (wf : bool) (s : fstate) (m : server_msg) : res :=
 
 (* ---- everything that can happen to the client --------------------------------------------
    ORecv m       a text frame that decodes to a ServerMessage of shape m
-   ORecvFail m   the same while writes on the connection fail (reset by the remote)
+   ORecvFail m   the same while writes on the connection fail (reset by the remote),
+                 followed by the read error of the reset connection
    OJunk         a frame that is not text or does not decode: ignored
    ODrop         the remote closes / resets the connection (read error)
    OAccept       the reconnect timer fired and the remote accepted the connection
@@ -380,10 +381,14 @@ Inductive op :=
 | ORecv (m : server_msg) | ORecvFail (m : server_msg) | OJunk
 | ODrop | OAccept | ORefuse | OClientSend | OClientLeave.
 
+(* the read pump's ReadMessage fails: nothing more if the client has been closed,
+   otherwise scheduleReconnect (also when a failed write has scheduled one already) *)
+Definition reader_error (s : fstate) : res := if closed s then ok s [] else sched s.
+
 Definition step (v : variant) (s : fstate) (o : op) : res :=
   match o with
   | ORecv m => recv v false s m
-  | ORecvFail m => recv v true s m
+  | ORecvFail m => andthen (recv v true s m) reader_error
   | OJunk => ok s []
   | ODrop => if connected s then sched s else ok s []
   | OAccept => if connected s || closed s then ok s [] else ok (set_connected true s) []
